@@ -410,6 +410,18 @@ func (c *Compiler) Compile(node parser.Node) error {
 		numLocals := c.symbolTable.MaxSymbols()
 		instructions, sourceMap := c.leaveScope()
 
+		// local and free variable indexes are encoded in one byte
+		if numLocals > 256 {
+			return c.errorf(node,
+				"too many local variables in function: %d (limit 256)",
+				numLocals)
+		}
+		if len(freeSymbols) > 255 {
+			return c.errorf(node,
+				"too many captured variables in function: %d (limit 255)",
+				len(freeSymbols))
+		}
+
 		for _, s := range freeSymbols {
 			switch s.Scope {
 			case ScopeLocal:
@@ -1032,6 +1044,12 @@ func (c *Compiler) compileModule(
 	moduleCompiler.optimizeFunc(node)
 	compiledFunc := moduleCompiler.Bytecode().MainFunction
 	compiledFunc.NumLocals = symbolTable.MaxSymbols()
+	if compiledFunc.NumLocals > 256 {
+		// local variable indexes are encoded in one byte
+		return nil, c.errorf(node,
+			"too many local variables in module: %d (limit 256)",
+			compiledFunc.NumLocals)
+	}
 	c.storeCompiledModule(modulePath, compiledFunc)
 	return compiledFunc, nil
 }
